@@ -23,12 +23,16 @@ RULE = (
     'or mid-operation (>= 1 statement-level pre-emption and >= 2 threads); distinct = '
     '(configuration, fault, schedule trace) hash. Timing variants of every configuration '
     '(vlib/qwork.timing_variants, as in C04): timeouts that fire mid-stream because consumers / '
-    'sources sleep, with ignore_error on and off and consumers that retry after TimeoutError. '
+    'sources sleep, with ignore_error on and off and consumers that retry after TimeoutError; '
+    'batch_then_away variant (vlib/qwork.away_variants, as in C04): only a STARVED put may time out. '
     'Native async scenarios (AsyncIteratorQueue, vlib/aqwork): the asyncio task of one producer '
     'is cancelled at a random element, either while its source is awaited or while the element is '
     'being put; consumers stop early through async_dequeue_as_iterator(num_steps=k) / the sync '
     'twin dequeue_as_iterator(num_steps=k) on a bounded queue fed by practically endless async or '
-    'thread producers')
+    'thread producers. Fault exception kinds: InjectedError, the exception types the queue uses '
+    'itself (Empty, QueueEmpty, Full, TimeoutError, ...) and, for every producer at a random '
+    'position (incl. a source whose iter() raises), an exception object that cannot be decorated '
+    'with a note (frozen dataclass exception; exception with a read-only non-list __notes__)')
 ASSUMPTIONS = [a for a in C04.ASSUMPTIONS
                if not a.startswith(('polling variants', 'awaitable variants'))] + [
     'consumers keep consuming until they see an end or an exception; elements still queued when a failure is observed may be dropped (C05 only forbids duplicates)',
@@ -36,13 +40,16 @@ ASSUMPTIONS = [a for a in C04.ASSUMPTIONS
     'starvation scenarios: a timed wait expires exactly when no thread is enabled',
     'async scenarios run on native threads: a case that does not complete within its watchdog (3 s, cases take milliseconds) is run again with twice the watchdog; one expiry is inconclusive, two are a violation; its mechanism key is derived from the scenario and the recorded final state (which tasks are done, enqueue_done, exception), never from the expiry alone',
     'cancel scenario: a consumer that ends with any exception or with an end of stream is accepted; after a clean end only the tail of the cancelled producer (from the element in flight on) may be missing',
+    'faults whose exception rejects notes: a consumer may end with the injected exception or with any error that chains it (__cause__ / __context__); the failing producer may leave enqueue_from_iterator with any exception',
     'numsteps scenario: elements beyond the k taken (prefetched into the iterator cache or still queued) are dropped; after a chunk has one confirmed hang its remaining scenario cases are skipped (counter async_scn_cases_skipped_after_hang)',
 ]
 REQUIRED = ['async_cases', 'schedules', 'line_preemptions', 'fault_cases', 'stop_cases',
             'timeout_cases', 'faults_fired', 'stops_issued', 'shim_threading_installed',
             'timing_cases', 'timing_timeouts_fired', 'timing_naps', 'timing_consumer_retries',
             'timing_put_timeouts', 'async_cancel_cases', 'async_numsteps_cases',
-            'async_numsteps_sync_twin_cases']
+            'async_numsteps_sync_twin_cases', 'fault_exc_rejects_notes_cases',
+            'fault_exc_rejects_notes_fired', 'away_cases', 'away_parks',
+            'away_batches_freeing_several_slots']
 CHUNK_TIMEOUT_S = {'quick': 300, 'thorough': 3000}
 
 
@@ -101,6 +108,10 @@ def run_one(ctx, case):
   if case.get('fault'):
     ctx.count('fault_cases')
     ctx.count('faults_fired', sum(1 for e in log if e[0] == 'fail'))
+    if qwork.rejects_notes(case):
+      ctx.count('fault_exc_rejects_notes_cases')
+      ctx.count('fault_exc_rejects_notes_' + case['fault']['exc'])
+      ctx.count('fault_exc_rejects_notes_fired', sum(1 for e in log if e[0] == 'fail'))
   if case.get('stop'):
     ctx.count('stop_cases')
     ctx.count('stops_issued', sum(1 for e in log if e[0] == 'stop_request'))
@@ -119,6 +130,16 @@ def run_one(ctx, case):
   else:
     problems = qwork.analyse(case, sched, log)
   for kind, detail in problems:
+    if qwork.rejects_notes(case):
+      # keyed by the input class (+ the recorded evidence of the unrecorded failure);
+      # any other defect on these inputs keeps a generic key of its own scenario name
+      mech = (qwork.classify_notes_fault(case, kind, log, info)
+              or 'fault-exc-rejects-notes:' + _classify_problem(kind, detail))
+      C04.report_once_per_class(
+          ctx, kind, case,
+          {'detail': detail, 'queue_exception': repr(info['queue'].exception),
+           'enqueue_done': bool(info['queue'].enqueue_done), 'log_tail': log[-25:]}, mech)
+      continue
     ctx.violation(kind, case, {'detail': detail, 'log_tail': log[-25:]},
                   mechanism=classify_problem(kind, detail, case))
   if len(ctx.samples) < 3 and (case.get('fault') or case.get('stop')):
@@ -160,6 +181,11 @@ def cases_for_config(cfg, rng, tier):
     out.append(dict(cfg, fault={'p': p, 'at': at,
                                 'exc': rng.choice(['Empty', 'QueueEmpty', 'Full', 'TimeoutError',
                                                    'KeyError', 'IndexError', 'RuntimeError'])},
+                    timeout=None))
+    # an exception object that refuses add_note() (immutable / read-only __notes__), raised
+    # by next() at a random position or by iter() of the source
+    out.append(dict(cfg, fault={'p': p, 'at': rng.choice([-1] + list(range(lens[p] + 1))),
+                                'exc': rng.choice(['FrozenNotesError', 'ReadOnlyNotesError'])},
                     timeout=None))
   total = sum(lens)
   for k in range(total + 1):
@@ -319,7 +345,7 @@ def run_chunk(ctx, spec):
   from vlib import qwork
   trng = random.Random(spec['rseed'] * 7919 + spec['chunk'] + 5005)
   for cfg in mine:
-    for variant in qwork.timing_variants(cfg, trng):
+    for variant in qwork.timing_variants(cfg, trng) + qwork.away_variants(cfg, trng):
       for j in range(spec.get('n_tsched', 8)):
         case = dict(variant)
         case['sched_seed'] = trng.randrange(1 << 30)
